@@ -138,6 +138,49 @@ def check_e2e(version: str, payload: str) -> list:
     return viols
 
 
+def long_run(version: str) -> list:
+    """One decoder object handles a long run of distinct messages (more than any plausible cache holds), then
+    meets every one of them again, forwards and backwards; a second decoder under another protocol version is
+    used in between. Every decode must still give exactly the spelled fields."""
+    viols = []
+    sch = MessageSchema()
+    sch.set_protocol(get_protocol(version))
+    other = MessageSchema()
+    other.set_protocol(get_protocol("2.2" if version != "2.2" else "1.4"))
+    msgs = []
+    for n in range(0, 250, 7):
+        for c in (0, 1, 200):
+            for cmd, t in ((0, 6), (1, 2), (1, 47), (2, 0)):
+                for ack in (0, 1):
+                    msgs.append((n, c, cmd, ack, t, f"p{n}.{c}"))
+    msgs += [(n, 255, 3, 0, t, "i") for n in range(0, 60) for t in (0, 6, 11)]
+
+    def bad(k, f, what):
+        viols.append((f"C01|long-run-{k}|semicolon=False", f"[{version}] after {len(msgs)} distinct messages on one decoder, message {f}: {what}", {"version": version, "mode": "longrun"}))
+
+    seq = msgs + msgs + msgs[::-1]
+    for i, f in enumerate(seq):
+        line = R.enc(*f)
+        try:
+            if i % 3 == 0:
+                g = msgs[(i * 7 + 3) % len(msgs)]
+                o = other.load(R.enc(*g))
+                if fields_of(o) != g:
+                    bad("second-decoder", g, f"the second decoder gave {fields_of(o)}")
+                    break
+            m = sch.load(line)
+            if fields_of(m) != f:
+                bad("decode", f, f"decoded to {fields_of(m)} (position {i} of the run)")
+                break
+            if sch.dump(m) != line:
+                bad("encode", f, f"re-encoded as {sch.dump(m)!r}")
+                break
+        except Exception as exc:  # noqa: BLE001
+            bad(f"raised:{type(exc).__name__}", f, f"{exc}")
+            break
+    return viols
+
+
 def job(j):
     version, tier, fchunk = j
     alpha = QUICK if tier == "quick" else FULL
@@ -171,9 +214,11 @@ def run(ctx: core.Ctx) -> core.Report:
     pc = max(1, len(pls) // (ctx.workers * 2))
     jobs2 = [(v, pls[i : i + pc]) for v in R.VERSIONS for i in range(0, len(pls), pc)]
     res2 = core.pmap(job_e2e, jobs2, ctx.workers, chunksize=1)
+    lres = core.pmap(long_run, list(R.VERSIONS), ctx.workers, chunksize=1)
     total = sum(r[0] for r in res) + sum(r[0] for r in res2)
     semi = sum(r[1] for r in res) + sum(r[1] for r in res2)
     viols = [core.Violation(k, w, rep) for r in res + res2 for k, w, rep in r[2]]
+    viols += [core.Violation(k, w, rep) for r in lres for k, w, rep in r]
     cov = {
         "evaluations": total,
         "distinct_nontrivial": semi,
@@ -191,6 +236,9 @@ def run(ctx: core.Ctx) -> core.Report:
 
 
 def replay(data: dict) -> dict:
+    if data.get("mode") == "longrun":
+        v = long_run(data["version"])
+        return {"violated": bool(v), "violations": [{"key": k, "what": w} for k, w, _ in v]}
     f = tuple(data["fields"])
     v = check_codec(data["version"], f) if data["mode"] == "codec" else check_e2e(data["version"], f[5])
     return {"violated": bool(v), "violations": [{"key": k, "what": w} for k, w, _ in v]}
